@@ -406,6 +406,10 @@ class Executor:
 
     def s_Assign(self, st, env):
         val = self.eval(st.value, env)
+        lt = getattr(self.contract, "local_types", None)
+        if lt and len(st.targets) == 1 and isinstance(st.targets[0], ast.Name) and st.targets[0].id in lt \
+                and ((isinstance(val, Seq) and val.concrete and not val.items) or (isinstance(val, dict) and not val)):
+            val = lt[st.targets[0].id](self.S)     # sidecar-declared representation of an initially empty container
         for t in st.targets:
             self.assign(t, val, env)
 
@@ -533,6 +537,10 @@ class Executor:
             lo, hi = 0, it.len()
         elif isinstance(it, SetV):
             mode = "set"
+        elif isinstance(it, V.DictItems):
+            mode = "set"
+            ditems = it
+            it = SetV(ditems.d.dom)
         else:
             raise OutOfSubset("iteration over %r" % (it,), st)
 
@@ -581,7 +589,10 @@ class Executor:
                 key = z3.Const("sub!" + tag, it.arr.sort().domain())
                 self.assume(z3.ForAll([key], z3.Implies(z3.Select(P.arr, key), z3.Select(it.arr, key))))
                 self.assume(z3.And(z3.Select(it.arr, x), z3.Not(z3.Select(P.arr, x))))
-                self.assign(st.target, self.key_to_value(x, spec), env)
+                if "ditems" in locals():
+                    self.assign(st.target, Seq("tuple", [self.key_to_value(x, spec), z3.Select(ditems.d.val, x)]), env)
+                else:
+                    self.assign(st.target, self.key_to_value(x, spec), env)
             else:
                 for item in spec.inv(S, env, ghost):
                     cl = clause(item)
@@ -1093,7 +1104,7 @@ class Executor:
             return prelude.module_attr(self, o, e.attr, e)
         if isinstance(o, Func) and o.kind == "class":
             return Func("static", o.a[0], e.attr)
-        if isinstance(o, (Seq, SetV, DictV, Opaque)):
+        if isinstance(o, (Seq, SetV, DictV, Opaque, ObjSeq)):
             from . import prelude
             return prelude.value_attr(self, o, e.attr, e)
         raise OutOfSubset("attribute %s of %r" % (e.attr, o), e)
